@@ -27,6 +27,9 @@ func parseFrame(p []byte) Event {
 	cuu := 0
 	if m := reCUU.FindStringSubmatch(s); m != nil {
 		cuu, _ = strconv.Atoi(m[1])
+		if cuu < 1 {
+			cuu = 1 // terminals execute "cursor up 0" as "cursor up 1" (the parameter's default)
+		}
 		s = s[len(m[0]):]
 	}
 	e["cuu"] = cuu
